@@ -71,8 +71,8 @@ theorem append_joins (v : String) (a : Add) (hv : v.length > 0) (ha : a.append =
 
 /-- **timeout_precedence**: for every route, every header/variable content and every integer parser, the effective
 timeouts computed by the regenerated `parseProxyTimeout` are: protocol-supplied variable if present and numeric, else the
-request's timeout header if present and numeric, else the route's, else what was there; a zero global timeout becomes the
-default; and a per-try timeout ≥ the global timeout is disabled (0). -/
+request's timeout header if present and numeric, else the route's, else what was there; a global timeout that is zero
+or ([c08l9]) negative becomes the default; and a per-try timeout ≥ the global timeout is disabled (0). -/
 theorem timeout_precedence (parseInt : String → Option Int) (g0 t0 : Int) (hasRoute : Bool) (rg rt : Int)
     (hT hG vT vG : Option String) :
     parseProxyTimeout parseInt g0 t0 hasRoute rg rt hT hG vT vG =
@@ -85,6 +85,25 @@ theorem timeout_precedence (parseInt : String → Option Int) (g0 t0 : Int) (has
   generalize vT.bind parseInt = c
   generalize vG.bind parseInt = d
   cases hasRoute <;> cases a <;> cases b <;> cases c <;> cases d <;> simp
+
+/-! [c08l9] begin: the effective global timeout is positive -/
+/-- **global_timeout_positive** [c08l9]: for every route, every header / variable content (negative numbers included)
+and every integer parser, the global timeout that comes out of the regenerated `parseProxyTimeout` is > 0 — the response
+timer (`if s.timeout.GlobalTimeout > 0` in downstream.go) is therefore always armed: no request waits for a silent
+upstream without a timer. (Before the fix a header `x-mosn-global-timeout: -5` gave (-5 ms, 0): both timers disarmed.) -/
+theorem global_timeout_positive (parseInt : String → Option Int) (g0 t0 : Int) (hasRoute : Bool) (rg rt : Int)
+    (hT hG vT vG : Option String) :
+    0 < (parseProxyTimeout parseInt g0 t0 hasRoute rg rt hT hG vT vG).1 := by
+  rw [timeout_precedence]
+  simp only [specGlobal]
+  split <;> omega
+
+-- non-vacuity: a negative header value and a negative variable value end up as the default
+example : parseProxyTimeout (fun s => if s = "-5" then some (-5) else none) 0 0 true 3000000000 100000000
+    none (some "-5") none none = (60000000000, 100000000) := by decide
+example : parseProxyTimeout (fun s => if s = "-5" then some (-5) else none) 0 0 false 0 0
+    none none none (some "-5") = (60000000000, 0) := by decide
+/-! [c08l9] end -/
 
 /-- the per-try timeout that comes out is always strictly below the global one or disabled -/
 theorem try_below_global (parseInt : String → Option Int) (g0 t0 : Int) (hasRoute : Bool) (rg rt : Int)
